@@ -67,34 +67,44 @@ def reference_dt(sy, T, grid, et, kappa, breaks):
     return np.cumsum(out)
 
 
-def make_functions(rng, kind):
+def build_functions(psy, pT):
     import spowtd.specific_yield as sy_mod
     import spowtd.transmissivity as t_mod
 
+    sy = sy_mod.create_specific_yield_function(dict(psy))
+    if pT['type'] == 'spline':
+        T = t_mod.create_transmissivity_function(dict(pT))
+        ceiling = pT['zeta_knots_mm'][-1]
+        breaks = sorted(set(psy['zeta_knots_mm']) | set(pT['zeta_knots_mm']))
+        return sy, T, ceiling, breaks
+    T_s = t_mod.create_transmissivity_function(dict(pT))
+    T = lambda z: T_s(z) * 86400.0
+    return sy, T, pT['zeta_max_cm'] * 10 - 1.0, [float(v) for v in sy.zeta_knots_mm]
+
+
+def make_functions(rng, kind):
     if kind == 'spline':
         psy = gen_params.spline_sy(rng)
         lo, hi = psy['zeta_knots_mm'][0], psy['zeta_knots_mm'][-1]
         pT = gen_params.spline_T(rng, z_lo=lo - rng.uniform(0, 0.5) * (hi - lo))
-        # keep conductivities moderate so that the curve is well scaled
-        sy = sy_mod.create_specific_yield_function(dict(psy))
-        T = t_mod.create_transmissivity_function(dict(pT))
-        ceiling = pT['zeta_knots_mm'][-1]
-        breaks = sorted(set(psy['zeta_knots_mm']) | set(pT['zeta_knots_mm']))
-        return psy, pT, sy, T, ceiling, breaks
-    psy = gen_params.peatclsm_sy(rng) if rng.random() < 0.5 else dict(gen_params.PUBLISHED_SY)
-    pT = dict(gen_params.PUBLISHED_T, zeta_max_cm=rng.choice([1.0, 5.0, 30.0]), Ksmacz0=10 ** rng.uniform(-2, 1))
-    sy = sy_mod.create_specific_yield_function(dict(psy))
-    T_s = t_mod.create_transmissivity_function(dict(pT))
-    T = lambda z: T_s(z) * 86400.0
-    return psy, pT, sy, T, pT['zeta_max_cm'] * 10 - 1.0, [float(v) for v in sy.zeta_knots_mm]
+    else:
+        psy = gen_params.peatclsm_sy(rng) if rng.random() < 0.5 else dict(gen_params.PUBLISHED_SY)
+        pT = dict(gen_params.PUBLISHED_T, zeta_max_cm=rng.choice([1.0, 5.0, 30.0]), Ksmacz0=10 ** rng.uniform(-2, 1))
+    sy, T, ceiling, breaks = build_functions(psy, pT)
+    return psy, pT, sy, T, ceiling, breaks
 
 
-def check_function_case(ctx, rng, kind, combo):
+def check_function_case(ctx, rng, kind, combo, fixed=None):
     import spowtd.simulate_recession as sim
     import spowtd.simulate_rise as sim_rise
 
     rec = ctx.rec
     rec.case()
+    if fixed is not None:
+        psy, pT = fixed['sy'], fixed['T']
+        sy, T, ceiling, breaks = build_functions(psy, pT)
+        return verify_function_case(ctx, rng, fixed['param_kind'], combo, psy, pT, sy, T, breaks,
+                                    np.array(fixed['grid']), fixed['et'], fixed['kappa'], fixed['mean'])
     psy, pT, sy, T, ceiling, breaks = make_functions(rng, kind)
     lo = psy['zeta_knots_mm'][0] if kind == 'spline' else -600.0
     hi = min(ceiling, psy['zeta_knots_mm'][-1] + 50.0 if kind == 'spline' else ceiling)
@@ -120,7 +130,16 @@ def check_function_case(ctx, rng, kind, combo):
     et = 0.0 if combo == 'curvature-only' else rng.choice([0.5, 3.0, 4.15, rng.uniform(0.1, 8)])
     kappa = 0.0 if combo == 'et-only' else rng.choice([2.36e-3, 1e-3, rng.uniform(1e-4, 1e-2)])
     mean = rng.choice([0.0, 19.0, rng.uniform(-50, 50)])
-    case = {'kind': 'rec_fn', 'sy': psy, 'T': pT, 'grid': grid.tolist(), 'et': et, 'kappa': kappa, 'mean': mean, 'param_kind': kind}
+    return verify_function_case(ctx, rng, kind, combo, psy, pT, sy, T, breaks, grid, et, kappa, mean)
+
+
+def verify_function_case(ctx, rng, kind, combo, psy, pT, sy, T, breaks, grid, et, kappa, mean):
+    import spowtd.simulate_recession as sim
+    import spowtd.simulate_rise as sim_rise
+
+    rec = ctx.rec
+    descending = len(grid) > 1 and grid[0] > grid[-1]
+    case = {'kind': 'rec_fn', 'sy': psy, 'T': pT, 'grid': grid.tolist(), 'grid_is_integer': bool(np.issubdtype(grid.dtype, np.integer)), 'et': et, 'kappa': kappa, 'mean': mean, 'param_kind': kind, 'combo': combo}
     rec.hit('combo:' + combo)
     if kind == 'peatclsm':
         rec.hit('peatclsm-cases')
@@ -359,4 +378,10 @@ def run(ctx):
 
 
 def replay(ctx, case, module=None):
-    ctx.rec.inconclusive_because('C18 cases regenerate from the seed; rerun the tier with the same seed')
+    rng = core.make_rng('replay')
+    if case.get('kind') == 'rec_fn':
+        if case.get('grid_is_integer'):
+            case['grid'] = [int(v) for v in case['grid']]
+        check_function_case(ctx, rng, case['param_kind'], case.get('combo', 'both'), fixed=case)
+    else:
+        ctx.rec.inconclusive_because('CLI cases of C18 regenerate from the seed; rerun the tier with the same seed')
